@@ -126,3 +126,46 @@ Proof. reflexivity. Qed.
 Theorem run_after_reset s prog sid base limit n :
   run n (vm_prepare (vm_reset s) prog sid base limit) = run n (init_state prog sid base limit).
 Proof. rewrite reset_is_init. reflexivity. Qed.
+
+(* ---------- slot initialisation happens at most once per group ---------- *)
+(* INITSLOT succeeds iff NEITHER the local NOR the argument slot of the context exists yet (one guard for the pair, as in the
+   reference implementation: INITSLOT 1,0 followed by INITSLOT 0,1 faults), the two counts are not both zero and the
+   arguments are on the stack *)
+Lemma initslot_once e nl na d :
+  exec_data e INITSLOT [nl; na] d <> DFault <->
+  d_local d = None /\ d_args d = None /\ ~ (nl = 0 /\ na = 0) /\ (0 < na -> na <= zlen (d_es d)).
+Proof.
+  unfold exec_data. cbn [exec_data_opt].
+  destruct (d_local d) as [lo|]; [split; [intros H; exfalso; apply H; reflexivity|intros (X & _); discriminate]|].
+  destruct (d_args d) as [ar|]; [split; [intros H; exfalso; apply H; reflexivity|intros (_ & X & _); discriminate]|].
+  destruct ((nl =? 0) && (na =? 0)) eqn:Z0.
+  - apply andb_true_iff in Z0. destruct Z0 as [A B]. apply Z.eqb_eq in A. apply Z.eqb_eq in B.
+    split; [intros H; exfalso; apply H; reflexivity|intros (_ & _ & N & _); exfalso; apply N; split; assumption].
+  - assert (NZ : ~ (nl = 0 /\ na = 0)).
+    { intros [A B]. subst. discriminate. }
+    destruct (0 <? na) eqn:Pa.
+    + match goal with |- context [zlen ?es <? na] => destruct (zlen es <? na) eqn:L end.
+      * split; [intros H; exfalso; apply H; reflexivity|]. intros (_ & _ & _ & K).
+        destruct (0 <? nl); cbn [d_es set_refs set_local set_mem] in L; lia.
+      * split; [intros _|intros _; discriminate]. repeat split; auto. intros _.
+        destruct (0 <? nl); cbn [d_es set_refs set_local set_mem] in L; lia.
+    + split; [intros _|intros _; discriminate]. repeat split; auto. lia.
+Qed.
+(* INITSSLOT succeeds iff the script has no static slot yet and the count is not zero *)
+Lemma initsslot_once e n d : exec_data e INITSSLOT [n] d <> DFault <-> d_static d = None /\ n <> 0.
+Proof.
+  unfold exec_data. cbn [exec_data_opt param0]. destruct (n =? 0) eqn:Z0.
+  - split; [intros H; exfalso; apply H; reflexivity|intros [_ N]; lia].
+  - destruct (d_static d); [split; [intros H; exfalso; apply H; reflexivity|intros [X _]; discriminate]|].
+    split; [intros _; split; [reflexivity|lia]|intros _; discriminate].
+Qed.
+(* every context has its own local and argument slots; the static slot belongs to the script *)
+Lemma call_fresh_slots s pos s' :
+  call s pos = Some s' ->
+  f_local (s_fr s') = None /\ f_args (s_fr s') = None /\ sc_static (s_sc s') = sc_static (s_sc s) /\ s_frames s' = s_fr s :: s_frames s.
+Proof. unfold call. repeat case_if; try discriminate. intros Q; inv Q. repeat split. Qed.
+Lemma load_script_fresh_slots s prog sid rv :
+  let s' := load_script s prog sid rv in
+  f_local (s_fr s') = None /\ f_args (s_fr s') = None /\ sc_static (s_sc s') = None /\
+  s_outer s' = (s_sc s, (s_fr s, s_frames s)) :: s_outer s.
+Proof. repeat split. Qed.
